@@ -203,16 +203,21 @@ func (s *sockServer) close() {
 type tapConn struct {
 	net.Conn
 	mu  sync.Mutex
+	on  bool
 	log []byte
 }
 
 func (t *tapConn) Write(p []byte) (int, error) {
 	t.mu.Lock()
-	t.log = append(t.log, p...)
+	if t.on {
+		t.log = append(t.log, p...)
+	}
 	t.mu.Unlock()
 	return t.Conn.Write(p)
 }
 func (t *tapConn) frames() [][]byte { t.mu.Lock(); defer t.mu.Unlock(); return splitFrames(t.log) }
+func (t *tapConn) tapStart()        { t.mu.Lock(); t.log, t.on = nil, true; t.mu.Unlock() }
+func (t *tapConn) tapStop()         { t.mu.Lock(); t.on = false; t.mu.Unlock() }
 
 // noCloser hides Close so that agent.NewClient uses its serial mode.
 type noCloser struct {
@@ -237,7 +242,7 @@ func dialPaths(sock, prefix string) ([]*path, func(), error) {
 		}
 		conns = append(conns, c)
 		tc := &tapConn{Conn: c}
-		p := &path{viaList: true, tapFn: tc.frames}
+		p := &path{viaList: true, tap: tc}
 		if pipelined {
 			p.name, p.ag = prefix+"-pipelined", agent.NewClient(tc)
 		} else {
@@ -343,13 +348,14 @@ func runOpenSSHAgent(m *mon.M, pool []*testKey) {
 			return false
 		}
 		cmd = c
-		for n := 0; n < 1000; n++ { // when to look, not a verdict
-			if _, err := os.Stat(sock); err == nil {
+		for n := 0; n < 3000; n++ { // when to look, not a verdict
+			if c, err := net.Dial("unix", sock); err == nil {
+				c.Close()
 				return true
 			}
 			time.Sleep(10 * time.Millisecond)
 		}
-		m.Note("ssh-agent socket did not appear")
+		m.Note("ssh-agent socket did not accept connections")
 		return false
 	}
 	defer func() {
@@ -404,7 +410,11 @@ func (e *addEnv) run(pw string, args ...string) (string, string, int) {
 	cmd.Stdin = nil
 	var o, er bytes.Buffer
 	cmd.Stdout, cmd.Stderr = &o, &er
+	t0 := time.Now()
 	err := cmd.Run()
+	if os.Getenv("VERIF_DEBUG") != "" {
+		fmt.Fprintf(os.Stderr, "ssh-add %v took %v\n", args, time.Since(t0))
+	}
 	rc := 0
 	if err != nil {
 		rc = -1
@@ -549,6 +559,32 @@ func runSSHAdd(m *mon.M, pool []*testKey) {
 			}
 		}
 		certOf := func(k *testKey) *testKey { return keyByNm[k.name+"-cert"] }
+		{
+			// forced opening: add one key with ssh-add and have OpenSSH request and verify a signature (-T)
+			k := files[0]
+			_, _, rc := e.run("", filepath.Join(e.plain, k.file))
+			_, allOK, allFail, ok := e.judge(agentmodel.Add, nil)
+			if !ok || !e.rcCheck("add", rc, allOK, allFail) {
+				return
+			}
+			_, _, rc = e.run("", "-T", filepath.Join(e.plain, k.file+".pub"))
+			calls, allOK, allFail, ok := e.judge(agentmodel.Sign, nil)
+			if !ok {
+				return
+			}
+			if allOK && rc != 0 {
+				m.Inconclusive(fmt.Sprintf("oracle disagreement: ssh-add -T rejected signatures the standard-library verifier accepts (case %d)", i))
+				return
+			}
+			if !e.rcCheck("sign", rc, allOK, allFail) {
+				return
+			}
+			for _, c := range calls {
+				if !c.obs.Err && c.obs.SigValid {
+					m.Count("sshadd_signatures_verified_by_openssh", 1)
+				}
+			}
+		}
 		nOps := 8 + r.IntN(8)
 		for step := 0; step < nOps && !w.dead; step++ {
 			k := files[r.IntN(len(files))]
